@@ -47,3 +47,41 @@ _spec._TABLE.update(
         "req_end": lambda ex, node: sv_real(req_end(ex.ref_id(ex.eval(node.args[0])))),
     }
 )
+
+
+# -- protocol frames (C14): rows are (cumulative end time as Timedelta, parameter Series) -------------
+row_secs = z3.Function("row_secs", S.INT, S.INT, S.REAL)  # total_seconds() of the i-th index label of a frame
+n_rows = z3.Function("n_rows", S.INT, S.INT)
+
+
+def _method(ex: Exec, base: SV, name: str, node: ast.Call):
+    from .loops import IterAbs
+
+    if base.ty.kind == "obj" and base.ty.cls in ("pd.DataFrame", "DataFrame") and name == "iterrows":
+        lib.used(ex, "DataFrame.iterrows(): rows in index order as (label, Series); Timedelta.total_seconds() of a label is the ghost row_secs")
+        fid = ex.ref_id(base)
+        n = n_rows(fid)
+        ex.assume(n >= 0)
+
+        def get(i, fid=fid):
+            label = SV(None, T.RAW, aux=("timedelta", row_secs(fid, i)))
+            oid = ex.new_obj("pd.Series") if not ex.spec and getattr(ex, "bound_depth", 0) == 0 else z3.Int("row!obj")
+            return [label, SV(S.mk_ref(oid), T.obj("pd.Series"))]
+
+        return SV(None, T.RAW, aux=IterAbs(n, get))
+    if base.ty.kind == "raw" and isinstance(base.aux, tuple) and base.aux[0] == "timedelta" and name == "total_seconds":
+        return sv_real(base.aux[1])
+    if base.ty.kind == "obj" and base.ty.cls in ("pd.Series", "Series") and name == "to_dict":
+        lib.used(ex, "Series.to_dict(): a fresh dict (contents not modelled)")
+        return ex.new_dict(T.dict_of(T.STR, T.REAL))
+    return None
+
+
+lib.METHOD_HOOKS.append(_method)
+
+_spec._TABLE.update(
+    {
+        "row_secs": lambda ex, node: sv_real(row_secs(ex.ref_id(ex.eval(node.args[0])), S.un_int(ex.eval(node.args[1]).t))),
+        "n_rows": lambda ex, node: SV(S.mk_int(n_rows(ex.ref_id(ex.eval(node.args[0])))), T.INT),
+    }
+)
